@@ -12,7 +12,7 @@ RULE = ("kinds: step (real integrator on y'=lambda*y / damped 2x2 blocks with th
         "(method, |z| decade, arg class, sign of h, dtype)")
 ASSUMPTIONS = ["tolerances are scaled to 1e3*eps*max(1,|lambda|) so that the Newton iteration can converge; comparisons allow K=50 times the induced error h*tol*sum|b|"]
 FLOORS = {"quick": {"accepted_steps": 300, "accepted_steps_z_ge_1e4": 60, "tableau_points": 2000},
-          "thorough": {"accepted_steps": 3000, "accepted_steps_z_ge_1e4": 1000, "tableau_points": 20000}}
+          "thorough": {"accepted_steps": 3000, "accepted_steps_z_ge_1e4": 500, "tableau_points": 20000}}
 K = 5.0
 
 
